@@ -71,6 +71,12 @@ pub fn parse_sequence(
         let trimmed = body_line.content.trim();
 
         if trimmed == "}" {
+            // A sequence over no elements has no element to show on any visit.
+            if branches.is_empty() {
+                return Err(CompilerError::invalid_source(
+                    "sequence block has no '-' branches".to_owned(),
+                ));
+            }
             let had_newline = body_line.had_newline;
             *line_index += 1;
             let mut result = vec![Node::Sequence(Sequence { mode, branches })];
@@ -212,6 +218,11 @@ pub fn parse_multi_branch_sequence(
         let line = &lines[*line_index];
         let trimmed = line.content.trim();
         if trimmed == "}" {
+            if branches.is_empty() {
+                return Err(CompilerError::invalid_source(
+                    "sequence block has no '-' branches".to_owned(),
+                ));
+            }
             *line_index += 1;
             return Ok(vec![Node::Sequence(Sequence {
                 mode: mode.unwrap_or(SequenceMode::Stopping),
